@@ -401,6 +401,12 @@ def run(model: RepoModel, rep, tier: str):
     rep.rule("C15.R8", "every loader keeps its own tables: a mutable object bound in a class body of the loader / table modules is never written "
                        "through self (one loader's index or cache would be every loader's)", 0)
     check_shared_class_state(model, rep, "C15.R8", ["util/loader.py", "util/data_model.py"])
+    from .. import generic6
+    rep.rule("C15.R9", "an id range written as (min, max) is read back whole: restore rebuilds range(min, max + 1)", 1)
+    generic6.check_inclusive_bounds_roundtrip(model, rep, "C15.R9")
+    rep.rule("C15.R10", "a summary is exported under the keys it was built with: tables keyed by raw indices are never read under an index "
+                        "that went through raw_to_new_index", 1)
+    generic6.check_raw_index_keys(model, rep, "C15.R10")
 
     # ------------------------------------------------------------------ R1
     # role: the cache consulted first by the reader
